@@ -61,6 +61,8 @@ func (fx *fnExec) indexAnchors() map[ssa.Instruction]anchorInfo {
 						base = "new(" + n.Obj().Name() + ")"
 					}
 				}
+			case *ssa.MakeChan:
+				base = "makechan"
 			case *ssa.TypeAssert:
 				base = "typeassert"
 			case *ssa.Extract:
@@ -479,6 +481,7 @@ func (fx *fnExec) execInstr(st *state, in ssa.Instruction) {
 	case *ssa.MakeChan:
 		r := fx.newRef(st)
 		fx.vals[x] = val{term: r, typ: x.Type()}
+		fx.anchorAsserts(st, in, map[string]sval{"size": fx.toSval(fx.operand(st, x.Size))})
 	case *ssa.MakeSlice:
 		r := fx.newRef(st)
 		l := fx.termOf(st, x.Len)
